@@ -24,9 +24,9 @@
 (***************************************************************************)
 EXTENDS Hybrid, Json, IOUtils, TLCExt
 
-VARIABLES l, bad, dead
+VARIABLES l, bad, dead, seenwr      \* seenwr: versions observed on the device so far in this run
 
-tvars == <<vars, l, bad, dead>>
+tvars == <<vars, l, bad, dead, seenwr>>
 
 Rec == ndJsonDeserialize(IOEnv.TRACE)
 
@@ -39,10 +39,13 @@ Skip(op) == S' = Begin(S) /\ out' = [op |-> op, res |-> 0]
 Apply(op) ==
     CASE op.a = "init" -> S' = S0 /\ out' = [op |-> op, res |-> 0]
       [] op.a = "ins" -> IF S.active THEN Insert(op.k) ELSE Skip(op)
+      [] op.a = "ins_nt" -> IF S.active THEN InsertNoTurn(op.k) ELSE Skip(op)
       [] op.a = "rem" -> IF S.active THEN Remove(op.k) ELSE Skip(op)
       [] op.a = "get" -> IF S.active THEN Get(op.k) ELSE Skip(op)
+      [] op.a = "sload" -> IF S.active THEN SLoad(op.k) ELSE Skip(op)
       [] op.a = "fetch" -> IF S.active THEN Fetch(op.k) ELSE Skip(op)
       [] op.a = "evict_all" -> IF S.active THEN EvictAll ELSE Skip(op)
+      [] op.a = "evict_all_nt" -> IF S.active THEN EvictAllNoTurn ELSE Skip(op)
       [] op.a = "hold" -> IF S.active /\ ~S.hold THEN Hold ELSE Skip(op)
       [] op.a = "unhold" -> IF S.hold THEN Unhold ELSE Skip(op)
       [] op.a = "gate_on" -> IF S.active /\ ~S.gate THEN GateOn ELSE Skip(op)
@@ -56,7 +59,7 @@ SameBag(s, t) == Len(s) = Len(t) /\ \A i \in DOMAIN s : Count(s, s[i]) = Count(t
 
 \* T = the specification's next state, exp = its expected result
 Bad(op, o, T, exp) ==
-    LET isLookup == op.a \in {"get", "fetch"}
+    LET isLookup == op.a \in {"get", "fetch", "sload"}
         r == o.res
         k == IF isLookup THEN op.k ELSE 0
         known(v) == v \in 1 .. Len(T.vkey)
@@ -64,6 +67,8 @@ Bad(op, o, T, exp) ==
             IF ~isLookup \/ r = exp THEN {}
             ELSE IF r < 0 THEN {<<"tool", "lookup_failed_or_incomplete">>}
             ELSE IF r >= 1000000 \/ (known(r) /\ T.vkey[r] # k) THEN {<<"C17", "foreign_value">>}
+            ELSE IF op.a = "sload" THEN {<<"drift", "store_load">>}
+            ELSE IF k \in T.shed THEN {<<"drift", "shed_write">>}     \* a write of k was shed (buffer full): outside C01 / C15
             ELSE IF r # 0 /\ r # T.truth[k]
                  THEN {<<"C01", "stale_or_removed_value">>}
                       \cup (IF k \notin T.touched /\ T.touched # Keys /\ FlushOnClose /\ T.truth[k] # 0
@@ -85,20 +90,30 @@ Bad(op, o, T, exp) ==
             ELSE IF SameBag(o.wr, T.wr) THEN {}
             ELSE IF ~T.hold /\ ~T.gate /\ ~S.hold /\ ~S.gate THEN {<<"C12", "device_writes">>}
             ELSE {<<"drift", "device_writes">>}
+        \* C15: what must be on the device when close() returns: every version the specification writes during the
+        \* close (the queued evictions, then the resident set) that is the latest of its key - written now or
+        \* seen written earlier (when exactly the flusher ran relative to a lookup is scheduling)
+        closeTags ==
+            IF op.a = "close" /\ FlushOnClose
+               /\ \E i \in DOMAIN T.wr : /\ \A j \in DOMAIN o.wr : o.wr[j] # T.wr[i]
+                                         /\ T.wr[i] \notin seenwr       \* (already durable: nothing to write)
+                                         /\ LET kk == T.vkey[T.wr[i]] IN
+                                            T.truth[kk] = T.wr[i] /\ kk \notin T.shed /\ ~Collides(kk)
+            THEN {<<"C15", "latest_version_not_written_by_close">>} ELSE {}
         memExp == [i \in 1 .. Len(KeySeq) |-> IF InMem(T, KeySeq[i]) THEN 1 ELSE 0]
         memTags ==
             \* the advice governs the insert (a later lookup may populate memory from disk)
-            IF op.a = "ins" /\ KeyLoc[op.k] = "ondisk" /\ \E i \in 1 .. Len(KeySeq) : KeySeq[i] = op.k /\ o.mem[i] = 1
+            IF op.a \in {"ins", "ins_nt"} /\ KeyLoc[op.k] = "ondisk" /\ \E i \in 1 .. Len(KeySeq) : KeySeq[i] = op.k /\ o.mem[i] = 1
             THEN {<<"C12", "ondisk_entry_retained_in_memory">>}
             ELSE IF o.mem = memExp THEN {} ELSE {<<"drift", "residency">>}
         dskExp == [i \in 1 .. Len(KeySeq) |-> IF T.index[Hash[KeySeq[i]]].kind = "addr" THEN 1 ELSE 0]
         dskTags == IF o.dsk = dskExp THEN {} ELSE {<<"drift", "disk_index">>}
-    IN resTags \cup enqTags \cup hitTags \cup wrTags \cup memTags \cup dskTags
+    IN resTags \cup enqTags \cup hitTags \cup wrTags \cup closeTags \cup memTags \cup dskTags
 
 Robust == {"stale_or_removed_value", "foreign_value", "older_value_after_close", "hit_reoffered_to_disk",
            "inmem_entry_on_device", "ondisk_entry_retained_in_memory"}
 
-TraceInit == S = S0 /\ out = [op |-> [a |-> "none"], res |-> 0] /\ l = 1 /\ bad = {} /\ dead = FALSE
+TraceInit == S = S0 /\ out = [op |-> [a |-> "none"], res |-> 0] /\ l = 1 /\ bad = {} /\ dead = FALSE /\ seenwr = {}
 
 TraceNext ==
     /\ l <= Len(Rec)
@@ -107,8 +122,10 @@ TraceNext ==
            isInit == Rec[l].op.a = "init" IN
        \* after a difference the specification's state may no longer describe the implementation: only the
        \* tags that rest on the logged operations alone (the truth of a key, its advice) are still judged
-       /\ bad' = IF isInit THEN {} ELSE IF dead THEN {x \in b : x[2] \in Robust} ELSE b
+       \* (with a small flush buffer a write may be shed, which the specification can only tell while in step)
+       /\ bad' = IF isInit THEN {} ELSE IF dead THEN {x \in b : x[2] \in Robust /\ (BufCap >= 64 \/ x[1] = "C17")} ELSE b
        /\ dead' = IF isInit THEN FALSE ELSE (dead \/ b # {})
+       /\ seenwr' = (IF isInit THEN {} ELSE seenwr) \cup {Rec[l].obs.wr[i] : i \in DOMAIN Rec[l].obs.wr}
     /\ l' = l + 1
 
 TraceSpec == TraceInit /\ [][TraceNext]_tvars
